@@ -201,7 +201,8 @@ pub fn run(ctx: &Ctx) -> (Outcome, String, Option<bool>) {
     }
     let mut out = super::hist::run_histories(ctx, "histories", p, ctx.scale(900, 9000), C20::default);
     out.absorb(crate::runner::run_sharded(ctx, "large-coin-set-at-activation", ctx.scale(3, 24), arb_big_set, |c, st, shard| check_big_set(c, st, shard)));
-    let rule = "Second phase: testnet chains whose first block fans the genesis coin out into 240-1000 coins under 1-5 interleaved covenant hashes (plus faucet markers), sealed forward to height 499 and across the activation; counts compared with a recount at 499, at 500, after a batch and after a seal. First phase: generated histories on Custom02/Custom08 (TIP-906 active from genesis) and Testnet (26%; a share of them fast-forwarded with empty blocks to just below height 500 so that the activation is crossed with coins in place) and Mainnet (12%; height jumps land one block below 830 000 and the activation is crossed honestly): all transaction kinds, child-first batches, pool settlements, proposer rewards, faucet markers. Oracle: invariant read through the cfg(melstf_verif) view after genesis, every accepted batch, every seal and every block opening: the raw coin tree is partitioned into coin entries and count entries; for every covenant hash the count entry equals the number of coin entries, no count entry exists without coins, none exist before activation, and no unexplained entry exists. Non-trivial = history with >=1 pool settlement or proposer reward and >=1 spend; distinct by the sequence of coin roots.".to_string();
+    out.absorb(super::hist::run_sampled_heights(ctx, &profile(), ctx.scale(250, 2500), C20::default));
+    let rule = "Also: the first phase's kind of histories on mainnet/testnet (85%) started at a height sampled anywhere below 2 000 000 (TIP-906 barrier crossed honestly first). Second phase: testnet chains whose first block fans the genesis coin out into 240-1000 coins under 1-5 interleaved covenant hashes (plus faucet markers), sealed forward to height 499 and across the activation; counts compared with a recount at 499, at 500, after a batch and after a seal. First phase: generated histories on Custom02/Custom08 (TIP-906 active from genesis) and Testnet (26%; a share of them fast-forwarded with empty blocks to just below height 500 so that the activation is crossed with coins in place) and Mainnet (12%; height jumps land one block below 830 000 and the activation is crossed honestly): all transaction kinds, child-first batches, pool settlements, proposer rewards, faucet markers. Oracle: invariant read through the cfg(melstf_verif) view after genesis, every accepted batch, every seal and every block opening: the raw coin tree is partitioned into coin entries and count entries; for every covenant hash the count entry equals the number of coin entries, no count entry exists without coins, none exist before activation, and no unexplained entry exists. Non-trivial = history with >=1 pool settlement or proposer reward and >=1 spend; distinct by the sequence of coin roots.".to_string();
     (out, rule, None)
 }
 
@@ -210,5 +211,5 @@ pub fn replay(case: &serde_json::Value) -> Check {
         let c: BigSet = serde_json::from_value(case.clone()).map_err(|e| crate::evidence::Violation::new("replay-format", e.to_string()))?;
         return check_big_set(&c, &mut Stats::default(), 200);
     }
-    super::hist::replay_history(case, &profile(), C20::default())
+    super::hist::replay_any(case, &profile(), &profile(), C20::default())
 }
